@@ -22,8 +22,9 @@ def make_enum(eid, name, n, placement, kinds=KINDS, generics='', derives=('EnumI
               discr=None, naming=False, style=None):
     e = ESpec(id=eid, name=name, derives=list(derives), feats=list(feats), generics=generics, style=style)
     pl = PLACEMENTS[placement]
+    off = sum(map(ord, eid)) % len(kinds)
     for i in range(n):
-        kind = ('unit', []) if unit_only else kinds[i % len(kinds)]
+        kind = ('unit', []) if unit_only else kinds[(i + off) % len(kinds)]
         v = VSpec(ident='V%d%s' % (i, 'abcXYZ'[i % 6] if not unit_only else ''), kind=kind[0], ftypes=list(kind[1]))
         if kind[0] == 'named':
             v.fnames, v.fdw = FIELD_NAMES[:len(kind[1])], [None] * len(kind[1])
